@@ -1,5 +1,7 @@
 \* thorough, exhaustive part: as the quick configuration with the bounds of the design for every framer
 CONSTANTS
+  FixExtractOverflow = TRUE
+  FixFramerError = TRUE
   Lfls = {1, 2, 3, 4, 5, 6, 7, 8}
   HostLfls = {1, 2, 3, 4, 5, 6, 7, 8}
   Endians = {TRUE, FALSE}
